@@ -5,7 +5,7 @@ get_DIE_from_lut_entry)."""
 import io, itertools
 from tools.lib.framework import impl_call
 
-CLAIMED = False
+CLAIMED = True
 CONFIG = {'assumptions': [
     'sections are handed to DWARFInfo as BytesIO streams with size = len(bytes)',
     'names are valid UTF-8; the library decodes them, the comparison re-encodes them',
